@@ -28,6 +28,9 @@ def Step.WF (cols : List Name) : Step → Prop
   | .orderBy keys => keys ≠ [] ∧ ∀ k ∈ keys, k.name ∈ cols
   | .limit _ => True
   | .fillna _ sub => ∀ n ∈ sub, n ∈ cols
+  | .replace _ _ sub => ∀ n ∈ sub, n ∈ cols
+  | .toDF names => names.length = cols.length ∧ names.Nodup
+  | .dropna _ _ sub => (∀ n ∈ sub, n ∈ cols) ∧ "num_nulls" ∉ cols
 
 instance (cols : List Name) (s : Step) : Decidable (s.WF cols) := by
   cases s <;> unfold Step.WF <;> exact inferInstance
@@ -37,8 +40,14 @@ def StepsWF (T : Table) : List Step → Prop
   | [] => True
   | s :: ss => s.WF T.cols ∧ StepsWF (specStep T s) ss
 
+/-- steps covered by `C01_partial` (the others are only compared executably: implementation vs `specStep`) -/
+def Step.inTheorem : Step → Bool
+  | .dropna _ _ _ => false
+  | _ => true
+
 /-- named scope hypotheses violated by a program (none are open after the `fix:` commits) -/
 def violated (steps : List Step) : List String :=
-  if noAdjacentOrderBy steps then [] else ["D_adjacentOrderBy"]
+  (if noAdjacentOrderBy steps then [] else ["D_adjacentOrderBy"]) ++
+  (if steps.all Step.inTheorem then [] else ["D_stepOutsideTheorem"])
 
 end Sqlframe
